@@ -156,8 +156,19 @@ def h_ext(env):
     x = F(vals[0])
     x *= b
     env.check('imul', x == a * b)
-    if P['char'] == 2:
-        env.check('lshift', a << 1 == a * F(2))
+    # shifts: multiplication / division by powers of two, and >> undoes << (for every characteristic; in odd characteristic the
+    # library's << multiplies by x^k while >> divides by the polynomial whose base-p encoding is 2^k: recorded as a known finding)
+    two = F(2)
+    tag = '' if P['char'] == 2 else 'odd_char_'
+    env.check(tag + 'lshift_is_mul_by_2^k', all(a << s == a * two ** s for s in (0, 1, 2)))
+    env.check(tag + 'rshift_is_div_by_2^k', all((a >> s) * two ** s == a for s in (0, 1, 2)))
+    env.check(tag + 'rshift_undoes_lshift', all((a << s) >> s == a for s in (0, 1, 2)))
+    x = F(vals[0])
+    x <<= 2
+    env.check(tag + 'ilshift_agrees', x == a << 2)
+    x = F(vals[0])
+    x >>= 2
+    env.check(tag + 'irshift_agrees', x == a >> 2)
     env.check('reduced', 0 <= int(a * b) < q)
 
 
